@@ -8,6 +8,7 @@ import Gzx.Proofs.BitsMatStr
 import Gzx.Proofs.BitsScan2
 import Gzx.Proofs.BitsParse
 import Gzx.Proofs.BitsCtor
+import Gzx.Proofs.BitsEncl2
 namespace Gzx.Bits
 open Gzx
 
